@@ -247,7 +247,162 @@ def h_collapse(case):
     return {'ranges': [[(r.start - base).days, (r.end - base).days] for r in out]}
 
 
+# --------------------------------------------------------------------------- routing / cache
+
+_REG = {}
+
+
+def _registered():
+    if not _REG:
+        from . import cachelab
+        cachelab.install()
+        pairs, valid, fam_of = cachelab.registered(L)
+        _REG.update(pairs=pairs, valid=valid, fam_of=fam_of)
+    return _REG
+
+
+def h_registered(case):
+    r = _registered()
+    return {'pairs': r['pairs'], 'valid': r['valid'], 'family': r['fam_of']}
+
+
+def h_history(case):
+    """A history of model requests on one thread (cold or warm start); returns per-request
+    observations and the event log of the shared cache."""
+    from . import cachelab
+    reg = _registered()
+    if case.get('cold', True):
+        cachelab.reset(record=True)
+    else:
+        cachelab.STATE['events'] = []
+        cachelab.STATE['seq'] = 0
+    obs = []
+    for r in case['reqs']:
+        if r.get('clear'):
+            cachelab.clear_cache_only()
+        o, _ = cachelab.do_request(L, reg['fam_of'], r)
+        obs.append(o)
+    ev = cachelab.STATE['events']
+    cachelab.STATE['events'] = None
+    return {'obs': obs, 'events': cachelab.finalize(ev)}
+
+
+def h_threads(case):
+    """Free-running threads sharing the cache, each issuing its own request list."""
+    import threading
+    from . import cachelab
+    reg = _registered()
+    cachelab.reset(record=True)
+    results = {}
+
+    def work(k, reqs):
+        out = []
+        for r in reqs:
+            o, _ = cachelab.do_request(L, reg['fam_of'], r)
+            out.append(o)
+        results[k] = out
+
+    ths = [threading.Thread(target=work, args=(k, reqs)) for k, reqs in enumerate(case['threads'])]
+    for t in ths:
+        t.start()
+    for t in ths:
+        t.join()
+    ev = cachelab.STATE['events']
+    cachelab.STATE['events'] = None
+    return {'obs': [results[k] for k in range(len(ths))], 'events': cachelab.finalize(ev)}
+
+
+def h_schedule(case):
+    """spec -> code: replay one interleaving of ModelCache.tla on the real factory.  Each spec
+    thread is a Python thread; it is released one segment at a time (up to the constructor
+    gate, through the constructor, to the end of the call) in the order the spec behaviour
+    takes its Lookup / Build / Insert steps."""
+    import threading
+    from . import cachelab
+    reg = _registered()
+    cachelab.reset(record=True)
+    nthreads = case['nthreads']
+    go = [threading.Semaphore(0) for _ in range(nthreads)]
+    parked = [threading.Event() for _ in range(nthreads)]
+    done = [False] * nthreads
+    me = threading.local()
+    results = [[] for _ in range(nthreads)]
+
+    def gate(where):
+        k = getattr(me, 'k', None)
+        if k is None:
+            return
+        parked[k].set()
+        go[k].acquire()
+
+    def work(k, reqs):
+        me.k = k
+        parked[k].set()
+        go[k].acquire()
+        for r in reqs:
+            o, _ = cachelab.do_request(L, reg['fam_of'], r)
+            results[k].append(o)
+            parked[k].set()          # call boundary
+            go[k].acquire()
+        done[k] = True
+        parked[k].set()
+
+    cachelab.STATE['gate'] = gate
+    ths = [threading.Thread(target=work, args=(k, case['reqs'][k]), daemon=True) for k in range(nthreads)]
+    try:
+        for t in ths:
+            t.start()
+        for k in range(nthreads):
+            parked[k].wait(30)
+        stuck = False
+        for k in case['order']:
+            if done[k]:
+                continue
+            parked[k].clear()
+            go[k].release()
+            if not parked[k].wait(60):
+                stuck = True
+                break
+        # drain: let every thread finish
+        for _ in range(200):
+            alive = [k for k in range(nthreads) if not done[k]]
+            if not alive or stuck:
+                break
+            for k in alive:
+                parked[k].clear()
+                go[k].release()
+                parked[k].wait(60)
+    finally:
+        cachelab.STATE['gate'] = None
+    ev = cachelab.STATE['events']
+    cachelab.STATE['events'] = None
+    return {'obs': results, 'events': cachelab.finalize(ev), 'stuck': stuck}
+
+
+def h_fingerprint(case):
+    """Behaviour of the model served for (type, culture): which probe words resolve to 2."""
+    from . import cachelab
+    reg = _registered()
+    o, m = cachelab.do_request(L, reg['fam_of'], {'type': case['type'], 'code': case['culture'], 'opt': 0, 'fb': False})
+    if m is None:
+        return {'served': o, 'hits': []}
+    hits = []
+    for cul, word in case['probes']:
+        try:
+            rs = m.parse(word)
+        except Exception:
+            rs = []
+        if any((r.resolution or {}).get('value') == '2' for r in rs):
+            hits.append(cul)
+    return {'served': o, 'hits': hits}
+
+
 _HANDLERS = {
+    'registered': h_registered,
+    'history': h_history,
+    'threads': h_threads,
+    'schedule': h_schedule,
+    'fingerprint': h_fingerprint,
     'collapse': h_collapse,
     'timex_roundtrip': h_timex_roundtrip,
     'timex_from': h_timex_from,
